@@ -515,13 +515,14 @@ func (q *Seq) Compare(r *SeqRealm, what string, exp []Exp, pending *MCall) {
 	}
 	// ambiguous-callee groups first
 	if pending != nil && pending.Callee < 0 {
-		got := -1
+		got, gotReg := -1, 0
 		n := 0
 		for i := range exp {
 			if len(exp[i].Alt) > 0 && exp[i].Alt[0] == "?choice" {
 				if matchOne(i) {
 					n++
 					got = exp[i].To
+					gotReg, _ = symOf(exp[i].Text, "R#")
 				}
 				usedExp[i] = true
 			}
@@ -529,7 +530,7 @@ func (q *Seq) Compare(r *SeqRealm, what string, exp []Exp, pending *MCall) {
 		if n != 1 {
 			q.C.Violf("step %d (%s): expected exactly one INVOCATION among the candidate callees %v, got %d", q.Step, what, pending.Cands, n)
 		} else {
-			r.M.CallResolve(pending, got)
+			r.M.CallResolve(pending, got, gotReg)
 		}
 	}
 	for i := range exp {
